@@ -1,4 +1,5 @@
 import CoxeterVerif.Lemmas.FamiliesUniform
+import CoxeterVerif.Lemmas.FamiliesZ5
 import CoxeterVerif.Lemmas.FamiliesTables
 import CoxeterVerif.Lemmas.FamiliesCorners423a
 import CoxeterVerif.Lemmas.FamiliesCorners423b
@@ -72,8 +73,54 @@ example : let R := rows [(⟨1, 0, 0⟩ : V3 ℝ), ⟨0, 1, 0⟩, ⟨0, 0, 1⟩]
   · simp [tripleDet, V3.det3, V3.dot, V3.cross]; norm_num
   · simp [V3.dot]
 
+/-- **No duplicates on the rounding grid.** No two returned points have the same 6-decimal
+rounding (`np.unique` on the rounded rows): together with soundness and completeness, every
+`1e-6` grid cell that contains an admissible meeting point is represented exactly once. -/
+theorem make_vertices_keys_nodup (planes : List (V3 ℝ)) (types : List Nat) (a b c : ℝ) :
+    (makeVertices planes types a b c).Pairwise (fun p q => key p ≠ key q) :=
+  uniqueRounded_keys_nodup _
+
 /-- the rounding of `np.round(·, 6)` (`rint(x·10⁶)/10⁶`, half to even) moves a number by at most 5e-7 -/
 theorem round6_error (x : ℝ) : |round6 x - x| ≤ 1 / 2000000 := round6_close x
+
+/-- **Exactness when the thresholds are not straddled.** If, for the given table and parameters,
+(G1) every plane triple has determinant 0 or of absolute value > 1e-6, and (G2) the meeting point
+of every independent triple either satisfies all half-spaces exactly or violates one by more than
+1e-6, then `make_vertices` returns only vertices of the exact polytope `{x | ∀ j, P_j·x ≤ d_j}`
+and every vertex of that polytope is returned up to the 6-decimal rounding grid. -/
+theorem make_vertices_exact_of_gap (planes : List (V3 ℝ)) (types : List Nat) (a b c : ℝ)
+    (G1 : ∀ t : Row ℝ × Row ℝ × Row ℝ, [t.1, t.2.1, t.2.2].Sublist (rows planes types a b c) →
+      tripleDet t = 0 ∨ 1 / 1000000 < |tripleDet t|)
+    (G2 : ∀ t : Row ℝ × Row ℝ × Row ℝ, [t.1, t.2.1, t.2.2].Sublist (rows planes types a b c) →
+      tripleDet t ≠ 0 →
+      (∀ r ∈ rows planes types a b c, V3.dot r.1 (solve3 t) ≤ r.2) ∨
+      (∃ r ∈ rows planes types a b c, r.2 + 1 / 1000000 < V3.dot r.1 (solve3 t))) :
+    (∀ p ∈ makeVertices planes types a b c, IsVertexR (rows planes types a b c) p) ∧
+    (∀ x, IsVertexR (rows planes types a b c) x →
+      ∃ p ∈ makeVertices planes types a b c, key p = key x ∧
+        |p.x - x.x| ≤ 1 / 1000000 ∧ |p.y - x.y| ≤ 1 / 1000000 ∧ |p.z - x.z| ≤ 1 / 1000000) := by
+  constructor
+  · intro p hp
+    obtain ⟨hin, t, hsub, hdet, h0, h1, h2⟩ := make_vertices_sound planes types a b c p hp
+    have hne : tripleDet t ≠ 0 := by
+      intro h; rw [h, abs_zero] at hdet; norm_num at hdet
+    have hps : p = solve3 t := solve3_unique t hne p h0 h1 h2
+    refine ⟨?_, t, hsub, hne, h0, h1, h2⟩
+    rcases G2 t hsub hne with hex | ⟨r, hr, hviol⟩
+    · rw [hps]; exact hex
+    · exfalso
+      have := hin r hr
+      rw [hps, dot_comm] at this
+      linarith
+  · rintro x ⟨hfeas, t, hsub, hne, h0, h1, h2⟩
+    have hdet : 1 / 1000000 < |tripleDet t| := by
+      rcases G1 t hsub with h | h
+      · exact absurd h hne
+      · exact h
+    refine make_vertices_complete planes types a b c t x hsub hdet h0 h1 h2 ?_
+    intro r hr
+    have := hfeas r hr
+    rw [dot_comm]; linarith
 
 /-! ## get_shape: domains -/
 
@@ -270,6 +317,102 @@ theorem corners_523_partial :
       rhombicTriacontahedronT.V.length == 32) = true :=
   ⟨FamTables.c523_icosidodecahedron, FamTables.c523_icosahedron, FamTables.c523_dodecahedron,
    FamTables.c523_rhombicTriacontahedron⟩
+
+/-! ### the same, as statements about the real polytope of the model's plane table
+(`Fam.isVertexSet_sound`: the Boolean evaluator is sound for the polytope over ℝ) -/
+
+/-- **Family323Plus, real form.** With the model's real plane table (`Gen.fam323.planesS`) and
+`b = 1`, the vertices of `{x | ∀ j, P_j·x ≤ dist_j}` at the four corners of the rectangle are
+exactly the octahedron, the two tetrahedra and the cube. -/
+theorem corners_323_real (x : V3 ℝ) :
+    (IsVertexR (rows Gen.fam323.planesS Gen.fam323.types 1 1 1) x ↔
+      ∃ v ∈ octahedronT.V, x = V3.sdiv (ZV.toReal v) (octahedronT.td : ℝ)) ∧
+    (IsVertexR (rows Gen.fam323.planesS Gen.fam323.types 3 1 1) x ↔
+      ∃ v ∈ tetrahedronDualT.V, x = V3.sdiv (ZV.toReal v) (tetrahedronDualT.td : ℝ)) ∧
+    (IsVertexR (rows Gen.fam323.planesS Gen.fam323.types 1 1 3) x ↔
+      ∃ v ∈ tetrahedronT.V, x = V3.sdiv (ZV.toReal v) (tetrahedronT.td : ℝ)) ∧
+    (IsVertexR (rows Gen.fam323.planesS Gen.fam323.types 3 1 3) x ↔
+      ∃ v ∈ cubeT.V, x = V3.sdiv (ZV.toReal v) (cubeT.td : ℝ)) := by
+  have hden : 0 < Gen.fam323.den := by decide
+  have e (i : Int) : ((⟨i, 0⟩ : Z5).toScalar Gen.fam323.den : ℝ) = i := by
+    rw [toScalar_real]; simp [Gen.fam323]
+  have eb : (Gen.fam323.b.toScalar Gen.fam323.den : ℝ) = 1 := by
+    rw [toScalar_real]; simp [Gen.fam323]
+  have h1 := cornerIs_sound Gen.fam323 ⟨1, 0⟩ ⟨1, 0⟩ _ hden FamTables.c323_octahedron x
+  have h2 := cornerIs_sound Gen.fam323 ⟨3, 0⟩ ⟨1, 0⟩ _ hden FamTables.c323_tetrahedron_a3 x
+  have h3 := cornerIs_sound Gen.fam323 ⟨1, 0⟩ ⟨3, 0⟩ _ hden FamTables.c323_tetrahedron_c3 x
+  have h4 := cornerIs_sound Gen.fam323 ⟨3, 0⟩ ⟨3, 0⟩ _ hden FamTables.c323_cube x
+  simp only [e, eb, Int.cast_one, Int.cast_ofNat] at h1 h2 h3 h4
+  exact ⟨h1, h2, h3, h4⟩
+
+/-- the corner (1,1,1) of the cube is one of the vertices at (a, c) = (3, 3) -/
+example : IsVertexR (rows Gen.fam323.planesS Gen.fam323.types 3 1 3)
+    (V3.sdiv (ZV.toReal (zi 1 1 1)) (cubeT.td : ℝ)) :=
+  ((corners_323_real _).2.2.2).mpr ⟨zi 1 1 1, by decide, rfl⟩
+
+/-- **Family423, real form**: cuboctahedron, octahedron of radius 2, cube, rhombic dodecahedron. -/
+theorem corners_423_real (x : V3 ℝ) :
+    (IsVertexR (rows Gen.fam423.planesS Gen.fam423.types 1 2 2) x ↔
+      ∃ v ∈ cuboctahedronT.V, x = V3.sdiv (ZV.toReal v) (cuboctahedronT.td : ℝ)) ∧
+    (IsVertexR (rows Gen.fam423.planesS Gen.fam423.types 2 2 2) x ↔
+      ∃ v ∈ (octahedronT.scale ⟨2, 0⟩ 1).V, x = V3.sdiv (ZV.toReal v) ((octahedronT.scale ⟨2, 0⟩ 1).td : ℝ)) ∧
+    (IsVertexR (rows Gen.fam423.planesS Gen.fam423.types 1 2 3) x ↔
+      ∃ v ∈ cubeT.V, x = V3.sdiv (ZV.toReal v) (cubeT.td : ℝ)) ∧
+    (IsVertexR (rows Gen.fam423.planesS Gen.fam423.types 2 2 3) x ↔
+      ∃ v ∈ rhombicDodecahedronT.V, x = V3.sdiv (ZV.toReal v) (rhombicDodecahedronT.td : ℝ)) := by
+  have hden : 0 < Gen.fam423.den := by decide
+  have e (i : Int) : ((⟨i, 0⟩ : Z5).toScalar Gen.fam423.den : ℝ) = i := by
+    rw [toScalar_real]; simp [Gen.fam423]
+  have eb : (Gen.fam423.b.toScalar Gen.fam423.den : ℝ) = 2 := by
+    rw [toScalar_real]; simp [Gen.fam423]
+  have h1 := cornerIs_sound Gen.fam423 ⟨1, 0⟩ ⟨2, 0⟩ _ hden FamTables.c423_cuboctahedron x
+  have h2 := cornerIs_sound Gen.fam423 ⟨2, 0⟩ ⟨2, 0⟩ _ hden FamTables.c423_octahedron x
+  have h3 := cornerIs_sound Gen.fam423 ⟨1, 0⟩ ⟨3, 0⟩ _ hden FamTables.c423_cube x
+  have h4 := cornerIs_sound Gen.fam423 ⟨2, 0⟩ ⟨3, 0⟩ _ hden FamTables.c423_rhombicDodecahedron x
+  simp only [e, eb, Int.cast_one, Int.cast_ofNat] at h1 h2 h3 h4
+  exact ⟨h1, h2, h3, h4⟩
+
+/-- **Family523, real form, soundness half**: with `b = 2`, at (1,S²), (s√5,S²), (1,3), (s√5,3)
+every point of the scaled textbook solid is a vertex of the real polytope.
+`_partial`: no statement that there are no further vertices (see `corners_523_partial`). -/
+theorem corners_523_real_partial :
+    (∀ v ∈ (icosidodecahedronT.swapYZ.scale ⟨-1, 1⟩ 2).V,
+      IsVertexR (rows Gen.fam523.planesS Gen.fam523.types 1 2 (goldS * goldS))
+        (V3.sdiv (ZV.toReal v) ((icosidodecahedronT.swapYZ.scale ⟨-1, 1⟩ 2).td : ℝ))) ∧
+    (∀ v ∈ (icosahedronT.scale ⟨-1, 1⟩ 2).V,
+      IsVertexR (rows Gen.fam523.planesS Gen.fam523.types (golds * Real.sqrt 5) 2 (goldS * goldS))
+        (V3.sdiv (ZV.toReal v) ((icosahedronT.scale ⟨-1, 1⟩ 2).td : ℝ))) ∧
+    (∀ v ∈ (dodecahedronT.scale ⟨-1, 1⟩ 2).V,
+      IsVertexR (rows Gen.fam523.planesS Gen.fam523.types 1 2 3)
+        (V3.sdiv (ZV.toReal v) ((dodecahedronT.scale ⟨-1, 1⟩ 2).td : ℝ))) ∧
+    (∀ v ∈ (rhombicTriacontahedronT.scale ⟨-1, 1⟩ 2).V,
+      IsVertexR (rows Gen.fam523.planesS Gen.fam523.types (golds * Real.sqrt 5) 2 3)
+        (V3.sdiv (ZV.toReal v) ((rhombicTriacontahedronT.scale ⟨-1, 1⟩ 2).td : ℝ))) := by
+  have hden : 0 < Gen.fam523.den := by decide
+  have e1 : ((⟨2, 0⟩ : Z5).toScalar Gen.fam523.den : ℝ) = 1 := by
+    rw [toScalar_real]; simp [Gen.fam523]
+  have e2 : ((⟨5, -1⟩ : Z5).toScalar Gen.fam523.den : ℝ) = golds * Real.sqrt 5 := by
+    rw [toScalar_real, gold_bounds.1]; simp [Gen.fam523]; ring
+  have e3 : ((⟨3, 1⟩ : Z5).toScalar Gen.fam523.den : ℝ) = goldS * goldS := by
+    rw [toScalar_real, gold_bounds.2]; simp [Gen.fam523]
+  have e4 : ((⟨6, 0⟩ : Z5).toScalar Gen.fam523.den : ℝ) = 3 := by
+    rw [toScalar_real]; simp [Gen.fam523]; norm_num
+  have eb : (Gen.fam523.b.toScalar Gen.fam523.den : ℝ) = 2 := by
+    rw [toScalar_real]; simp [Gen.fam523]; norm_num
+  have c1 := FamTables.c523_icosidodecahedron
+  have c2 := FamTables.c523_icosahedron
+  have c3 := FamTables.c523_dodecahedron
+  have c4 := FamTables.c523_rhombicTriacontahedron
+  rw [Bool.and_eq_true] at c1 c2 c3 c4
+  refine ⟨fun v hv => ?_, fun v hv => ?_, fun v hv => ?_, fun v hv => ?_⟩
+  · have := cornerHas_sound Gen.fam523 ⟨2, 0⟩ ⟨3, 1⟩ _ hden c1.1 v hv
+    rwa [e1, e3, eb] at this
+  · have := cornerHas_sound Gen.fam523 ⟨5, -1⟩ ⟨3, 1⟩ _ hden c2.1 v hv
+    rwa [e2, e3, eb] at this
+  · have := cornerHas_sound Gen.fam523 ⟨2, 0⟩ ⟨6, 0⟩ _ hden c3.1 v hv
+    rwa [e1, e4, eb] at this
+  · have := cornerHas_sound Gen.fam523 ⟨5, -1⟩ ⟨6, 0⟩ _ hden c4.1 v hv
+    rwa [e2, e4, eb] at this
 
 /-! ## DOI lookup -/
 
